@@ -9,7 +9,9 @@ CONSTANTS
   MaxTime = 14
   Lossy = TRUE
   KeepLater = FALSE
+  Async <- NoPeers
 INVARIANT TypeOK
+INVARIANT RemoveSaysGoodbye
 INVARIANT GoodbyeHonoured
 INVARIANT NeverPartial
 INVARIANT NothingForeign
